@@ -32,7 +32,11 @@ def tonumpy(poly: PolyLike) -> numpy.ndarray:
         raise numpoly.FeatureNotSupported(
             "only constant polynomials can be converted to array."
         )
-    idx = numpy.argwhere(numpy.all(poly.exponents == 0, -1)).item()
+    constant = numpy.all(poly.exponents == 0, -1)
+    if not numpy.any(constant):
+        # only (retained) all-zero terms and no constant term: the value is zero
+        return numpy.zeros(poly.shape, dtype=poly.dtype)
+    idx = numpy.argwhere(constant).item()
     if poly.size:
         return numpy.array(poly.coefficients[idx])
     return numpy.array([])
